@@ -44,11 +44,11 @@ Section Count.
   Proof.
     unfold create_violation_error, bindM, emit, throw, ret. intros H.
     destruct (cerror c) as [|kk|e|eargs].
-    - destruct (clambda c) eqn:El; cbn [andb] in H;
-        [destruct (forallb _ (cargs c)); [destruct (select _ _ _)|]|];
+    - destruct (clambda c) eqn:El;
+        [destruct (select _ _ _)|];
         cbn in H; injection H as <- <- <-; unfold count; cbn; destruct (Z.eqb (cid c) k); cbn; lia.
-    - destruct (clambda c) eqn:El; cbn [andb] in H;
-        [destruct (forallb _ (cargs c)); [destruct (select _ _ _)|]|];
+    - destruct (clambda c) eqn:El;
+        [destruct (select _ _ _)|];
         cbn in H; injection H as <- <- <-; unfold count; cbn; destruct (Z.eqb (cid c) k); cbn; lia.
     - cbn in H; injection H as <- <- <-; unfold count; cbn; destruct (Z.eqb (cid c) k); destruct (clambda c); cbn; lia.
     - destruct (select eargs eargs resolved) as [kw|]; cbn in H;
